@@ -31,23 +31,23 @@ META = {
 
 def check(ctx):
     m = sc.build(ctx, "R09")
-    r09_1(ctx, m)
-    r09_2(ctx, m)
-    r09_3(ctx, m)
-    c08.check_provenance(ctx)  # bo:i is the BO of the anchor node: same rule as the sort key
+    ctx.run(r09_1, m)
+    ctx.run(r09_2, m)
+    ctx.run(r09_3, m)
+    ctx.run(c08.check_provenance)  # bo:i is the BO of the anchor node: same rule as the sort key
     # sn:Z is the SN tag value as the graph loader stored it: the loader's TAG:TYPE:VALUE split is shared with C07
     from . import gfa_common as gc
     from . import c07
 
-    c07.r07_4(ctx, gc.build(ctx, "R07.4"))
+    ctx.run(c07.r07_4, gc.build(ctx, "R07.4"))
     ctx.not_decided.append("byte equality of the re-read line under BGZF (pysam's seek/readline contract)")
     ctx.assumptions.append("tell()/seek()/readline() of text files and pysam BGZFile are consistent with each other")
     # mechanisms this property rests on (see shared.py): a change there is reported here as well
     from . import shared as _sh
 
-    _sh.path_tokenisers(ctx)
-    _sh.graph_loader(ctx)
-    _sh.cli_layer(ctx, "gaftools.cli.sort")
+    ctx.run(_sh.path_tokenisers)
+    ctx.run(_sh.graph_loader)
+    ctx.run(_sh.cli_layer, "gaftools.cli.sort")
 
 
 def handle_ops_on_path(p, handle):
